@@ -308,7 +308,7 @@ func (c *ProcCase) Main() {
 		ctx = clock.ToContext(ctx, mock)
 		fan := event.NewFanOut()
 		ttr := tracing.NewTracer(ctx)
-		builder := event.DefinitionInstanceBuildingChain(timer.EventDefinitionInstanceBuilder(ctx, fan, ttr))
+		builder := event.DefinitionInstanceBuildingChain(timer.EventDefinitionInstanceBuilder(ctx, fan, ttr), event.WrappingDefinitionInstanceBuilder)
 		timerOpts = []bpmn.Option{bpmn.WithTracer(ttr), bpmn.WithProcessEventDefinitionInstanceBuilder(builder), bpmn.WithEventEgress(fan), bpmn.WithEventIngress(fan)}
 	}
 	engine := bpmn.NewEngine(bpmn.WithEngineContext(ctx))
